@@ -16,7 +16,7 @@ CHECKS = {
     'C02': ('translation_validation',
             'bounded symbolic evaluation of the emitted SQL (GROUP BY, correlated scalar sub-queries, aggregate functions) in z3 vs a reference denotation; unsat = equal on every database within the bound; sat models replayed on real SQLite',
             'For each catalogue program of the agg family, z3 proves the emitted SQL returns the reference multiset (distinct keys once, aggregates over all bodies, combines per outer binding, nulls ignored, null on no solution, negation = no solution) on every database with <=K rows per table incl. NULLs in aggregated columns, empty groups and ties.',
-            'Trusted: lv/sqlsem.py, lv/refsem.py, z3. Count of nothing = 0; ArgMin/ArgMax under no-tie assumption; List compared as multiset. Known finding KF-C02-list-of-nothing (List{} of nothing is [] on SQLite) is reported as KNOWN-FINDING and the predicate re-decided with that deviation accepted.',
+            'Trusted: lv/sqlsem.py, lv/refsem.py, z3. The K-best aggregates are additionally compared model / SQLite / reference on 24 grouped concrete databases per program (their Python heap logic is abstracted in the SQL model). Count of nothing = 0; ArgMin/ArgMax under no-tie assumption; List compared as multiset. Known finding KF-C02-list-of-nothing (List{} of nothing is [] on SQLite) is reported as KNOWN-FINDING and the predicate re-decided with that deviation accepted.',
             'DESIGN.md §2.1, §3 C02', 'sqlsmt'),
     'C03': ('translation_validation',
             'bounded symbolic evaluation (z3, domain compaction) of the unfolded recursion SQL, and of the iterative plan executed by the real concertina_lib with a symbolic sql_runner, vs depth+1 reference applications of the rules from empty relations; sat models replayed on real SQLite',
@@ -49,8 +49,8 @@ CHECKS = {
             'Trusted: lv/scope.py (calibrated on the 801 predicates of integration_tests/ and examples/ in their own dialects: none flagged), CrossHair for the enumeration. The scanner does not know column lists (a missing column of an existing alias is not detected). Fixed defect: Databricks.Subscript arity.',
             'DESIGN.md §3 C09', 'variants'),
     'C10': ('other',
-            'z3 encoding of QL.StrLiteral regenerated from the source AST on every run (per-character transducer + dialect lexer automaton over N symbolic code points with symbolic length; unsat = every string is emitted as one literal that decodes to itself); CrossHair lemmas for ParseString (double-, triple- and single-quoted), flag override / rejection / expansion and scanner string opacity; witnesses replayed on the real StrLiteral, a concrete lexer and real SQLite',
-            'For all 8 dialects and every string of <=12 (24 thorough) code points the emitted literal is one well-formed token of that dialect whose decoded value is the string; double-quoted, triple-quoted and (backslash-free) single-quoted Logica literals parse to their body over every code point class; a user flag value overrides the default, undefined flags are rejected, ${flag} is expanded; string bodies are opaque to the scanner.',
+            'z3 encoding of QL.StrLiteral regenerated from the source AST on every run (per-character transducer + dialect lexer automaton over N symbolic code points with symbolic length; unsat = every string is emitted as one literal that decodes to itself); CrossHair lemmas for ParseString (double-, triple- and single-quoted incl. four escapes), flag override / rejection / expansion, scanner string opacity, and strings full of template metacharacters passed through 12 built-in templates and run on real SQLite (indices symbolic, run native); witnesses replayed on the real StrLiteral, a concrete lexer and real SQLite',
+            'For all 8 dialects and every string of <=12 (24 thorough) code points the emitted literal is one well-formed token of that dialect whose decoded value is the string; double-quoted, triple-quoted and (backslash-free) single-quoted Logica literals parse to their body over every code point class; a user flag value overrides the default, undefined flags are rejected, ${flag} is expanded; string bodies are opaque to the scanner; a string argument containing {1}, {0}, {}, %s, %(x)s, quotes or backslashes reaches the result unchanged through Join, ++, Element, if, Greatest, in, Like, ToString, Size.',
             'Trusted: dialect lexical rules (SQLite rule validated on real SQLite), z3, CrossHair; ast.literal_eval is replaced by its contract on backslash-free bodies (validated against the interpreter each run). Outside: backslash escapes in single-quoted literals, exotic control characters, values spelling ${flag}.',
             'DESIGN.md §3 C10', 'z3k'),
     'C11': ('translation_validation',
@@ -60,7 +60,7 @@ CHECKS = {
             'DESIGN.md §3 C11', 'sqlsmt'),
     'C12': ('translation_validation',
             '(a) metamorphic: program split over import files vs generator-flattened single file, both compiled by the real compiler, equivalence decided by z3 over a bounded symbolic database; (b,c) CrossHair symbolic execution of the real ParseFile prefix loop and import acceptance rules, claimed on "Confirmed over all paths"; counterexamples replayed',
-            'z3 proves split == flattened for each enumerated import layout on every database with <=2 rows per table; CrossHair confirms distinct non-empty prefixes for all ordered pairs of distinct import paths up to depth 2 (3 thorough) over a 3-word alphabet, and that imports are rejected exactly per the documented rules over 15x8 configurations.',
+            'z3 proves split == flattened for each of 10 enumerated import layouts (incl. one module under two import roots, one predicate imported under two names) on every database with <=2 rows per table; CrossHair confirms distinct non-empty prefixes for all ordered pairs of distinct import paths up to depth 2 (3 thorough) over a 3-word alphabet, and that imports are rejected exactly per the documented rules over 15x8 configurations.',
             'Trusted: lv/sqlsem.py, z3, CrossHair. Outside: C++ parser, import graphs beyond the layouts.',
             'DESIGN.md §3 C12', 'sqlsmt'),
     'C13': ('other',
@@ -85,7 +85,7 @@ CHECKS = {
             'DESIGN.md §3 C16', 'kern'),
     'C17': ('translation_validation',
             'histories of CLI-style runs: the statement list of each run is passed through the real sqlite3_logica.RunSqlScript (recording connection) and the texts it hands to SQLite are executed by a symbolic statement interpreter (ATTACH aliases and files, DROP/CREATE, SELECT) over a symbolic database file; each assertion is a z3 equivalence between stores/rows; sat models replayed on a real SQLite file',
-            'For each catalogue program with grounded intermediates (attached as logica_home or logica_test) and each enumerated history of <=3 runs, z3 proves for every database content within the bound: dependant rows == program without @Ground; the table of P in the attached file == P alone; printing P writes nothing; re-runs return the same rows and leave the same tables.',
+            'For each catalogue program with grounded intermediates (attached as logica_home or logica_test, default or explicit table names, one or two attached files with @Dataset) and each enumerated history of <=3 runs, z3 proves for every database content within the bound: dependant rows == program without @Ground; the table of P in the attached file == P alone; printing P writes nothing; re-runs return the same rows and leave the same tables.',
             'Trusted: lv/sqlsem.py statement interpreter, z3. Outside: overwrite:false, copy_to_file.',
             'DESIGN.md §3 C17', 'sqlsmt'),
     'C18': ('translation_validation',
@@ -100,7 +100,7 @@ CHECKS = {
             'DESIGN.md §3 C19', 'kern'),
     'C20': ('other',
             'CrossHair symbolic execution of the real Python UDFs with unbounded symbolic ints over all arrival orders ("Confirmed over all paths"); CrossHair-enumerated sequences g, f, g of UDF calls on one list text executed natively with the real json module (non-interference); z3 model of CPython set iteration to realise the Set-order candidate; z3 translation validation of the SQL-template built-ins (Range, Size, Element, in, Least/Greatest, arithmetic, comparison) against the reference; counterexamples replayed on the real code / real SQLite',
-            'ArgMin/ArgMax/ArgMinK/ArgMaxK/Array, ArrayConcatAgg, ArrayConcat, SortList, InList, Join and the content of Set are confirmed against one-line specifications for every arrival order (n<=4, ties excepted); a UDF answers the same before and after any other UDF saw the same list text (12 texts x 25 ordered pairs); template built-ins are proved against the reference on every database with <=2 rows.',
+            'ArgMin/ArgMax/ArgMinK/ArgMaxK/Array, ArrayConcatAgg, ArrayConcat, SortList, InList, Join and the content of Set are confirmed against one-line specifications for every arrival order (n<=4, ties excepted); a UDF answers the same before and after any other UDF saw the same list text (12 texts x 25 ordered pairs); template built-ins (incl. % by a constant with the sign of the dividend) are proved against the reference on every database with <=2 rows.',
             'Trusted: CrossHair, z3, lv/sqlsem.py model of the SQLite primitives, json stubbed as identity in the per-UDF kernels. Known finding KF-C20-set-arrival-order. Outside: ++, Split, ToString/ToInt64, floats.',
             'DESIGN.md §3 C20', 'kern'),
 }
